@@ -57,6 +57,11 @@ const STDLIB: Module = module! {
     }
 };
 
+#[cfg(resynth_verif)]
+pub fn verif_root() -> &'static Module {
+    &STDLIB
+}
+
 pub fn toplevel_module(name: &str) -> Option<&'static Module> {
     match STDLIB.get(name) {
         None => None,
